@@ -244,6 +244,9 @@ def ob_totp_one_time(chk, ir):
     st, state, w, r = H.mkstate()
     user = SV('alice'); t1 = z3.BitVec('t1', lib.TW); t2 = z3.BitVec('t2', lib.TW); code = z3.String('code')
     st.pc += [t1 >= lib.T(1577836800 * 10**9), t1 <= t2, t2 <= lib.T(3976214400 * 10**9)]
+    # lemma (floor division is monotone): t1 <= t2 gives unix(t1) <= unix(t2) and step(t1) <= step(t2); stated so that the solver need not
+    # derive it through the constant multiplications that tie the seconds / 30 s steps to the nanosecond instants
+    st.pc += [z3.ULE(totpk.clock_vars(1)[0], totpk.clock_vars(2)[0]), z3.ULE(totpk.clock_vars(1)[1], totpk.clock_vars(2)[1])]
     H.add_hints(lens(r'^range\(', [1]))
     ps1 = totpk.call(H, st, state, user, code, t1, 1); verdict = 'holds'; total = len(ps1); n = 0
     for p1 in ps1:
@@ -280,8 +283,13 @@ def ob_totp_one_time(chk, ir):
             if not z3.is_true(z3.simplify(p2.result[0])): continue
             n += 1
             same_step = totpk.step_of_call(1) == totpk.step_of_call(2)
+            # distinct steps give distinct values (a six-digit collision between neighbouring steps is not a replay): instantiated for the steps evaluated
+            steps = []
+            for e_ in p2.evs('totp.validate'):
+                if not any(z3.eq(e_['step'], x) for x in steps): steps.append(e_['step'])
+            inj = [z3.Implies(totpk.HOTP(secret, a_) == totpk.HOTP(secret, b_), a_ == b_) for i_, a_ in enumerate(steps) for b_ in steps[i_ + 1:]]
             for region, cond in (('same 30 s step', same_step), ('adjacent step (validation accepts +-1 step)', z3.Not(same_step))):
-                r_, m = ex.model_fresh(p2.pc, cond, 60000)
+                r_, m = ex.model_fresh(p2.pc + inj, cond, 60000)
                 if r_ == 'sat':
                     # (a success that is not persisted although the profile came from the primary store is NOT the recorded offline-cache case)
                     site = 'validateUserTOTP/' + ('offline-cache/' if from_cache else 'not-persisted/' if not saved else '') + region
